@@ -79,6 +79,13 @@ def run_compact(cfg):
         c.assume(0 <= l, l < m, m < r, r <= rate / 2, (r - l) * width <= span * rate)
         b = fc.handbuilt(ns, cls, _rate=rate, _analytic=analytic, _vertices=(SReal(l), SReal(m), SReal(r)))
         try:
+            # another bank of the same class with other parameters and another sampling rate is queried first, at the same
+            # width: responses are functions of (instance, arguments), nothing may leak between instances
+            # (concrete parameters: no further symbolic atoms for the solver)
+            decoy = fc.handbuilt(ns, cls, _rate=2 * rate, _analytic=analytic, _vertices=(310.0, 1000.0 + 2000.0 / width, 1900.0 + 6000.0 / width))
+            decoy.get_truncated_response(0, width)
+            decoy.get_frequency_response(0, width)
+            decoy.get_frequency_response(0, width, half=True)
             start, tr = b.get_truncated_response(0, width)
             full = b.get_frequency_response(0, width)
             half = b.get_frequency_response(0, width, half=True)
@@ -206,17 +213,17 @@ class WNP(fc.FNP):
         return ND.fresh((n,), lambda idx: z3.ToReal(az + idx[0]), 'f8')
 
 
-def _mk_bank(ns, cls):
+def _mk_bank(ns, cls, tag=''):
     """hand-built single-filter instance: centre, std/alpha and the effective support are symbolic reals"""
     c = Ctx.cur
     b = fc.handbuilt(ns, cls)
-    xi, lo, hi, wrap = z3.Real('xi'), z3.Real('lowest_ang'), z3.Real('highest_ang'), z3.Real('wrap_support_ang')
+    xi, lo, hi, wrap = z3.Real('xi' + tag), z3.Real('lowest_ang' + tag), z3.Real('highest_ang' + tag), z3.Real('wrap_support_ang' + tag)
     c.assume(lo < xi, xi < hi, xi >= 0, xi <= rv(math.pi), lo >= rv(-2 * math.pi), hi <= rv(4 * math.pi), wrap > 0)
     b._rate = 8000
     if cls == 'GaborFilterBank':
         b._centers_ang = (SReal(xi),)
-        b._stds = (SReal(z3.Real('std')),)
-        c.assume(z3.Real('std') > 0)
+        b._stds = (SReal(z3.Real('std' + tag)),)
+        c.assume(z3.Real('std' + tag) > 0)
         b._supports_ang = ((SReal(lo), SReal(hi)),)
         b._wrap_supports_ang = (SReal(wrap),)
         b._scale_l2_norm = False
@@ -225,7 +232,7 @@ def _mk_bank(ns, cls):
         b._supports_ang = ((SReal(lo), SReal(hi)),)
         b._wrap_supports_ang = (SReal(wrap),)
         b._order = 4
-        HV = z3.Function('H_closed_form', R, R)
+        HV = z3.Function('H_closed_form' + tag, R, R)
         b._H = lambda omega, idx: (omega._bin(0, lambda a, _b: HV(a)) if isinstance(omega, ND) else SReal(HV(rv(omega))))
     return b, xi, lo, hi, wrap
 
@@ -240,9 +247,14 @@ def run_window(cfg):
     def body():
         c = Ctx.cur
         b, xi, lo, hi, wrap = _mk_bank(ns, cls)
+        if cls == 'GaborFilterBank':
+            b._scale_l2_norm = decide(z3.Bool('scale_l2_norm'))       # both normalisations
         c.assume((hi - lo) * width <= 3 * twopi + twopi * width / 4)
         fallback = (wrap >= twopi) if cls == 'GaborFilterBank' else (hi - lo + wrap >= twopi)
         try:
+            d_, xi_d, lo_d, hi_d, wrap_d = _mk_bank(ns, cls, '_decoy')       # another instance queried first (see run_compact)
+            c.assume((hi_d - lo_d) * width <= twopi, lo_d >= 0, hi_d <= rv(math.pi))
+            d_.get_truncated_response(0, width)
             start, tr = b.get_truncated_response(0, width)
         except Exception as e:
             symex.guard(e)
@@ -264,6 +276,17 @@ def run_window(cfg):
             bad.append(z3.And(inside, z3.Or(a < left, a >= left + ln)))
             bad.append(sz != left % width)
             bad.append(ln < 0)
+            if cls == 'GaborFilterBank' and width <= 9:
+                # values: every entry of the truncated response is a plain sum (unit coefficients) of the Gaussian summands
+                # the response methods add up (uninterpreted SUMMAND terms): a gain applied outside the exponent, or a
+                # differently normalised term, is not
+                for j in range(width):
+                    if not decide(ln > j):
+                        break
+                    tj = tr.get(j)
+                    apps = _apps([tj], 'SUMMAND')
+                    if not apps or not z3.simplify(tj - z3.Sum(apps), som=True).eq(z3.RealVal(0)):
+                        bad.append(z3.BoolVal(True))
         return ('ok', bad, is_fb)
 
     for ctx, res in explore(body, max_paths=3000):
@@ -287,6 +310,20 @@ def run_window(cfg):
     return dict(obligations=ob, discharged=dis, violations=viol, samples=[{'config': cfg['name'], 'paths': ob}], twin=dis > 0)
 
 
+def _apps(terms, name):
+    seen = {}
+
+    def walk(t):
+        if z3.is_app(t):
+            if t.decl().name() == name:
+                seen[t.get_id()] = t
+            for a_ in t.children():
+                walk(a_)
+    for t in terms:
+        walk(t)
+    return list(seen.values())
+
+
 def _wm(m):
     return dict(xi=_fv(m, 'xi'), lowest_ang=_fv(m, 'lowest_ang'), highest_ang=_fv(m, 'highest_ang'), wrap=_fv(m, 'wrap_support_ang'))
 
@@ -299,9 +336,9 @@ def run_pure(cfg):
     cls = cfg['cls']
     viol = []
     ob = dis = 0
-    seqs = [[(8, True), (9, True)], [(9, True), (8, True)], [(8, False), (8, True)], [(64, True), (65, True), (64, False)]]
+    seqs = [[(8, True), (9, True)], [(9, True), (8, True)], [(8, False), (8, True)], [(8, True), (8, False)], [(64, True), (65, True), (64, False)]]
     if cls in ('Fbank', 'GaborFilterBank'):
-        seqs = seqs[:3]       # long sequences are costly (mel log/exp axioms; per-bin periodisation loops of the Gabor response)
+        seqs = seqs[:4]       # long sequences are costly (mel log/exp axioms; per-bin periodisation loops of the Gabor response)
     # 'trunc' = get_truncated_response: adjacent widths share the number of half-spectrum bins but not the bin frequencies
     seqs += [[(8, 'trunc'), (9, 'trunc')], [(9, 'trunc'), (8, 'trunc')], [(8, True), (9, 'trunc'), (8, False)]]
     for seq in seqs:
@@ -374,6 +411,10 @@ def run_half(cfg):
         b, xi, lo, hi, wrap = _mk_bank(ns, cls)
         c.assume((hi - lo) * 65 <= 2 * rv(2 * math.pi), lo >= rv(-math.pi), hi <= rv(2 * math.pi))
         try:
+            d_, xi_d, lo_d, hi_d, wrap_d = _mk_bank(ns, cls, '_decoy')
+            c.assume((hi_d - lo_d) * 65 <= 2 * rv(2 * math.pi), lo_d >= 0, hi_d <= rv(math.pi))
+            d_.get_frequency_response(0, width, True)
+            d_.get_frequency_response(0, width, False)
             full = b.get_frequency_response(0, width, False)
             half = b.get_frequency_response(0, width, True)
         except Exception as e:
